@@ -89,9 +89,15 @@ Section T.
   Notation PASS := (pass V abs_width rel_width wm_rel wm_abs uf_lo uf_hi pl_lo pl_hi gl_mean gl_sigma lu_lo lu_hi
                          lu_bad bad_limits neg_sigma ninf pinf half cfg specs).
 
-  (* the name under which a prior is looked up exists: excludes a prior held under a number by the root *)
+  (* the name under which a prior is looked up always exists *)
   Definition names_ok (n : node) : Prop :=
     forall q p, last_path V q n = Some p -> exists name, cfg_name p = Ok name.
+  Lemma names_ok_all (n : node) : names_ok n.
+  Proof.
+    intros q p _. unfold cfg_name. destruct (isdigit (last p ""));
+      [destruct (rev p) as [|x [|y l]]|]; eexists; reflexivity.
+  Qed.
+
   Definition specs_cover (n : node) : Prop := forall q, In q (prior_ids V n) -> lookup_nat q specs <> None.
   Definition limits_good : Prop :=
     bad_limits ninf pinf = false /\
@@ -154,7 +160,7 @@ Section T.
   Qed.
 
   Theorem total_means_conditions (a' r : option V) (nl : bool) (means : list V) (n : node) :
-    wf V n -> is_pm V n = true -> names_ok n -> specs_cover n -> limits_good ->
+    wf V n -> is_pm V n = true -> specs_cover n -> limits_good ->
     prior_count V n <= List.length means ->
     (a' = None \/ r = None) ->
     (forall x, a' = Some x -> neg_sigma (abs_width x) = false) ->
@@ -162,7 +168,7 @@ Section T.
     (forall i dm, a' = None -> r = None -> i < prior_count V n -> modifiers_good (nth i means dm)) ->
     exists n' sp, PASS (MMeans a' r nl means) n = Ok (n', sp).
   Proof.
-    intros W P Nm Sc Lg L AR Ha Hr Hd. apply total_means; [exact W|exact L|].
+    intros W P Sc Lg L AR Ha Hr Hd. assert (Nm := names_ok_all n). apply total_means; [exact W|exact L|].
     intros i d dm Hi.
     assert (Hin : In (nth i (ordered_ids V n) d) (prior_ids V n)).
     { apply PAFC01.Proofs2.ordered_ids_in. apply nth_In. rewrite PAFC01.Proofs2.ordered_ids_length. exact Hi. }
@@ -173,16 +179,16 @@ Section T.
 
   (* identical instances for identical arguments when ids are kept *)
   Theorem instance_kept (md : mode V) (n n' : node) (sp : list (nat * spec V)) (args : nat -> option V) :
-    wf V n -> coll_const_free V n -> keeps_ids V md -> PASS md n = Ok (n', sp) ->
+    wf V n -> keeps_ids V md -> PASS md n = Ok (n', sp) ->
     inst V bin args n' = inst V bin args n.
   Proof.
-    intros W C K E. unfold pass in E.
+    intros W K E. unfold pass in E.
     destruct (mode_args V abs_width rel_width wm_rel wm_abs uf_lo uf_hi pl_lo pl_hi gl_mean gl_sigma lu_lo lu_hi
                         lu_bad bad_limits neg_sigma ninf pinf half cfg specs md n) as [a|e] eqn:Ea; [|discriminate].
     destruct (rebuild V (sigma_of V a) n) as [n1|] eqn:Er; [|discriminate]. inversion E; subst.
     destruct (mode_args_follows V abs_width rel_width wm_rel wm_abs uf_lo uf_hi pl_lo pl_hi gl_mean gl_sigma lu_lo lu_hi
                 lu_bad bad_limits neg_sigma ninf pinf half cfg specs md n a K Ea) as [f [ms [F _]]].
-    apply (rebuild_inst V bin (sigma_of V a) args args n W C n' Er).
+    apply (rebuild_inst V bin (sigma_of V a) args args n W n' Er).
     intros q _. rewrite (diag_sd V a q (follows_diag V ninf _ _ _ _ F)). reflexivity.
   Qed.
 End T.
@@ -204,23 +210,11 @@ Qed.
 Lemma abs_width_nonneg (a : Q) : 0 <= a -> sigma_negative_Q (pm_abs_width_Q a) = false.
 Proof. intro H. apply neg_false. exact H. Qed.
 
-Lemma rel_width_nonneg (r m : Q) : 0 <= r -> 0 <= m -> sigma_negative_Q (pm_rel_width_Q r m) = false.
-Proof. intros Hr Hm. apply neg_false. unfold pm_rel_width_Q. apply Qmult_le_0_compat; assumption. Qed.
+Lemma rel_width_nonneg (r m : Q) : 0 <= r -> sigma_negative_Q (pm_rel_width_Q r m) = false.
+Proof. intros Hr. apply neg_false. unfold pm_rel_width_Q. apply Qmult_le_0_compat; [exact Hr|apply Qabs_nonneg]. Qed.
 
-Lemma rel_width_negative (r m : Q) : 0 < r -> m < 0 -> sigma_negative_Q (pm_rel_width_Q r m) = true.
-Proof.
-  intros Hr Hm. apply neg_true. unfold pm_rel_width_Q.
-  setoid_replace 0 with (r * 0) by ring. rewrite Qmult_comm, (Qmult_comm r 0). apply Qmult_lt_compat_r; assumption.
-Qed.
-
-Lemma wm_relative_nonneg (v m : Q) : 0 <= v -> 0 <= m -> sigma_negative_Q (wm_relative_Q v m) = false.
-Proof. intros Hr Hm. apply neg_false. unfold wm_relative_Q. apply Qmult_le_0_compat; assumption. Qed.
-
-Lemma wm_relative_negative (v m : Q) : 0 < v -> m < 0 -> sigma_negative_Q (wm_relative_Q v m) = true.
-Proof.
-  intros Hr Hm. apply neg_true. unfold wm_relative_Q.
-  setoid_replace 0 with (v * 0) by ring. rewrite Qmult_comm, (Qmult_comm v 0). apply Qmult_lt_compat_r; assumption.
-Qed.
+Lemma wm_relative_nonneg (v m : Q) : 0 <= v -> sigma_negative_Q (wm_relative_Q v m) = false.
+Proof. intros Hr. apply neg_false. unfold wm_relative_Q. apply Qmult_le_0_compat; [exact Hr|apply Qabs_nonneg]. Qed.
 
 Lemma wm_absolute_nonneg (v : Q) : 0 <= v -> sigma_negative_Q (wm_absolute_Q v) = false.
 Proof. intro H. apply neg_false. exact H. Qed.
@@ -279,11 +273,11 @@ Proof.
 Qed.
 
 Theorem total_absolute_Q (ninf pinf : Q) cfg specs (a : Q) (nl : bool) (means : list Q) (n : node Q) :
-  wf Q n -> is_pm Q n = true -> names_ok Q n -> specs_cover Q specs n -> qlimits_good ninf pinf cfg specs ->
+  wf Q n -> is_pm Q n = true -> specs_cover Q specs n -> qlimits_good ninf pinf cfg specs ->
   (prior_count Q n <= List.length means)%nat -> 0 <= a ->
   exists n' sp, qpass ninf pinf cfg specs (MMeans (Some a) None nl means) n = Ok (n', sp).
 Proof.
-  intros W P Nm Sc Lg L Ha. unfold qpass. apply total_means_conditions; auto.
+  intros W P Sc Lg L Ha. unfold qpass. apply total_means_conditions; auto.
   - apply qlimits. exact Lg.
   - intros x E. inversion E; subst. apply abs_width_nonneg. exact Ha.
   - intros x i dm E. discriminate E.
@@ -291,33 +285,31 @@ Proof.
 Qed.
 
 Theorem total_relative_Q (ninf pinf : Q) cfg specs (r : Q) (nl : bool) (means : list Q) (n : node Q) :
-  wf Q n -> is_pm Q n = true -> names_ok Q n -> specs_cover Q specs n -> qlimits_good ninf pinf cfg specs ->
-  (prior_count Q n <= List.length means)%nat -> 0 <= r -> Forall (fun m => 0 <= m) means ->
+  wf Q n -> is_pm Q n = true -> specs_cover Q specs n -> qlimits_good ninf pinf cfg specs ->
+  (prior_count Q n <= List.length means)%nat -> 0 <= r ->
   exists n' sp, qpass ninf pinf cfg specs (MMeans None (Some r) nl means) n = Ok (n', sp).
 Proof.
-  intros W P Nm Sc Lg L Hr Hm. unfold qpass. apply total_means_conditions; auto.
+  intros W P Sc Lg L Hr. unfold qpass. apply total_means_conditions; auto.
   - apply qlimits. exact Lg.
   - intros x E. discriminate E.
-  - intros x i dm _ E Hi. inversion E; subst. apply rel_width_nonneg; [exact Hr|].
-    rewrite Forall_forall in Hm. apply Hm. apply nth_In. lia.
+  - intros x i dm _ E Hi. inversion E; subst. apply rel_width_nonneg. exact Hr.
   - intros i dm _ E. discriminate E.
 Qed.
 
 Theorem total_default_Q (ninf pinf : Q) cfg specs (nl : bool) (means : list Q) (n : node Q) :
-  wf Q n -> is_pm Q n = true -> names_ok Q n -> specs_cover Q specs n -> qlimits_good ninf pinf cfg specs ->
+  wf Q n -> is_pm Q n = true -> specs_cover Q specs n -> qlimits_good ninf pinf cfg specs ->
   qmodifiers_good cfg specs ->
-  (prior_count Q n <= List.length means)%nat -> Forall (fun m => 0 <= m) means ->
+  (prior_count Q n <= List.length means)%nat ->
   exists n' sp, qpass ninf pinf cfg specs (MMeans None None nl means) n = Ok (n', sp).
 Proof.
-  intros W P Nm Sc Lg [Mg1 Mg2] L Hm. unfold qpass. apply total_means_conditions; auto.
+  intros W P Sc Lg [Mg1 Mg2] L. unfold qpass. apply total_means_conditions; auto.
   - apply qlimits. exact Lg.
   - intros x E. discriminate E.
   - intros x i dm _ E. discriminate E.
   - intros i dm _ _ Hi.
-    assert (M : 0 <= nth i means dm) by (rewrite Forall_forall in Hm; apply Hm; apply nth_In; lia).
     assert (X : forall w, 0 <= wm_value w -> sigma_negative_Q (apply_wm Q wm_relative_Q wm_absolute_Q w (nth i means dm)) = false).
-    { intros [v|v] Hv; simpl in *; [apply wm_absolute_nonneg; exact Hv|apply wm_relative_nonneg; assumption]. }
-    split; [apply wm_relative_nonneg; [lra|exact M]|]. split.
+    { intros [v|v] Hv; simpl in *; [apply wm_absolute_nonneg; exact Hv|apply wm_relative_nonneg; exact Hv]. }
+    split; [apply wm_relative_nonneg; lra|]. split.
     + intros q s w H E. apply X. apply (Mg1 q s w H E).
     + intros k e w H E. apply X. apply (Mg2 k e w H E).
 Qed.
@@ -348,36 +340,25 @@ Proof.
   - intros k e w [].
 Qed.
 
-(* relative widths: a negative inferred value makes the passing fail (nothing is produced) *)
-Lemma total_relative_refuted :
-  qpass (-1000) 1000 [] ex_specs (MMeans None (Some (1 # 2)) false [1 # 2; -(3 # 2)]) ex_model = Exc EMessage
-  /\ qpass (-1000) 1000 [] ex_specs (MMeans None None false [1 # 2; -(3 # 2)]) ex_model = Exc EMessage.
-Proof. split; vm_compute; reflexivity. Qed.
+(* relative widths of a negative inferred value: the magnitude is used *)
+Lemma relative_negative_example :
+  exists n' s0 s1, qpass (-1000) 1000 [] ex_specs (MMeans None (Some (1 # 2)) false [1 # 2; -(3 # 2)]) ex_model = Ok (n', [(0%nat, s0); (1%nat, s1)])
+                   /\ s_mean Q s1 == -(3 # 2) /\ s_sigma Q s1 == 3 # 4.
+Proof. eexists. eexists. eexists. split; [vm_compute; reflexivity|]. split; reflexivity. Qed.
 
-(* a prior held under a number by a top-level collection: IndexError whatever the values *)
+(* a prior held under a number by a top-level collection is passed like any other *)
 Definition ex_digit : node Q := NColl [("0", NPrior 0%nat)].
-Lemma total_digit_refuted :
+Lemma digit_example :
   wf Q ex_digit /\ is_pm Q ex_digit = true /\
-  qpass (-1000) 1000 [] ex_specs (MMeans (Some 1) None false [1 # 2]) ex_digit = Exc EIndex /\
-  ~ names_ok Q ex_digit.
-Proof.
-  split; [simpl; auto|]. split; [reflexivity|]. split; [vm_compute; reflexivity|].
-  intro H. destruct (H 0%nat ["0"%string] eq_refl) as [name E]. vm_compute in E. discriminate E.
-Qed.
+  exists sp, qpass (-1000) 1000 [] ex_specs (MMeans (Some 1) None false [1 # 2]) ex_digit = Ok (ex_digit, sp).
+Proof. split; [simpl; auto|]. split; [reflexivity|]. eexists. vm_compute. reflexivity. Qed.
 
-(* a constant held directly by a collection disappears: the instance changes *)
+(* a constant held directly by a collection is kept *)
 Definition ex_coll : node Q := NColl [("k", NConst 2); ("p", NPrior 0%nat)].
 Definition qbin (o : binop) (a b : Q) : Q := match o with OAdd => a + b | OSub => a - b | OMul => a * b | ODiv => a / b end.
-Lemma instance_refuted :
-  wf Q ex_coll /\
-  exists n' sp, qpass (-1000) 1000 [] ex_specs (MMeans (Some 1) None false [1 # 2]) ex_coll = Ok (n', sp) /\
-                inst Q qbin (fun _ => Some 0) n' <> inst Q qbin (fun _ => Some 0) ex_coll /\
-                ~ coll_const_free Q ex_coll.
-Proof.
-  split; [simpl; auto|]. eexists. eexists. split; [vm_compute; reflexivity|]. split.
-  - vm_compute. discriminate.
-  - simpl. intros [[_ H] _]. discriminate H.
-Qed.
+Lemma collection_constant_example :
+  wf Q ex_coll /\ exists sp, qpass (-1000) 1000 [] ex_specs (MMeans (Some 1) None false [1 # 2]) ex_coll = Ok (ex_coll, sp).
+Proof. split; [simpl; auto|]. eexists. vm_compute. reflexivity. Qed.
 
 (* binary64: value +- b rounds back to value for a large value, and the uniform prior is rejected *)
 Definition ex_fmodel : node float := NModel "G2" ["a"; "b"] [("a", NPrior 0%nat); ("b", NConst 1%float)].
